@@ -138,7 +138,7 @@ def _consume_one(case):
 
 # ------------------------------------------------------------------ (b) end to end
 
-class _Timeout(Exception):
+class _Timeout(BaseException):
     pass
 
 
@@ -172,7 +172,7 @@ def _e2e_one(arg):
     np.random.seed(sd)
     random.seed(sd)
     signal.signal(signal.SIGALRM, _alarm)
-    signal.alarm(150)
+    signal.setitimer(signal.ITIMER_REAL, 150, 5)
     try:
         with tempfile.TemporaryDirectory(prefix="verif_c04_", dir="/var/tmp") as wd:
             wd = Path(wd)
@@ -196,7 +196,7 @@ def _e2e_one(arg):
     except _Timeout:
         return {"noverdict": "timeout"}
     finally:
-        signal.alarm(0)
+        signal.setitimer(signal.ITIMER_REAL, 0)
 
 
 def compare_e2e(case, out):
